@@ -174,11 +174,17 @@ def canon_leaderless(t: str, j: int):
     ensures(clean1(t, 0, j) == t)
 
 
-# ================================================================ the processors
+# ================================================================ entries: what each command kind records
 @spec
 def sargs(ctx: "ref:Command_invocationContext") -> "list[str]":
     """texts of the single (non-parenthesised) arguments in source order"""
     return [a.getText() for a in ctx.single_argument()]
+
+
+@spec
+def lname(ctx: "ref:Command_invocationContext") -> str:
+    """the command name, lower-cased: the only form in which the name is ever looked at (C04)"""
+    return ctx.Identifier().getText().lower()
 
 
 @spec
@@ -192,37 +198,239 @@ def wf_cmd(ctx: "ref:Command_invocationContext") -> bool:
 
 
 @spec
-def new_entry(agg: "ref:DocumentationAggregator", oldlen: int) -> "ref:DocumentationType":
-    return agg.documented[oldlen]
+def grew1(new: "list[ref]", old_: "list[ref]") -> bool:
+    """exactly one element was appended; everything before it is untouched and in place"""
+    return len(new) == len(old_) + 1 and forall(0, len(old_), lambda i: same(new[i], old_[i]))
 
 
+@spec
+def unchanged(new: "list[ref]", old_: "list[ref]") -> bool:
+    return len(new) == len(old_) and forall(0, len(old_), lambda i: same(new[i], old_[i]))
+
+
+@spec
+def popped(new: "list[ref]", old_: "list[ref]") -> bool:
+    return len(new) == len(old_) - 1 and forall(0, len(new), lambda i: same(new[i], old_[i]))
+
+
+@spec
+def e_function(agg: "ref:DocumentationAggregator", e: "ref", cmd: "ref:Command_invocationContext", doc: str) -> bool:
+    """function entry: first argument is the name, the others are the parameters after the strip pattern
+    (never applied to the name); **kwargs flag from the trigger string"""
+    return (typeof(e, "FunctionDocumentation") and
+            cast(e, "FunctionDocumentation").name == sargs(cmd)[0] and
+            cast(e, "FunctionDocumentation").doc == doc and
+            cast(e, "FunctionDocumentation").has_kwargs == (agg.settings.input.kwargs_doc_trigger_string in doc) and
+            len(cast(e, "FunctionDocumentation").params) == len(sargs(cmd)) - 1 and
+            forall(0, len(sargs(cmd)) - 1,
+                   lambda i: cast(e, "FunctionDocumentation").params[i] ==
+                   re_sub(agg.settings.input.function_parameter_name_strip_regex, sargs(cmd)[i + 1])))
+
+
+@spec
+def e_macro(agg: "ref:DocumentationAggregator", e: "ref", cmd: "ref:Command_invocationContext", doc: str) -> bool:
+    return (typeof(e, "MacroDocumentation") and
+            cast(e, "MacroDocumentation").name == sargs(cmd)[0] and
+            cast(e, "MacroDocumentation").doc == doc and
+            cast(e, "MacroDocumentation").has_kwargs == (agg.settings.input.kwargs_doc_trigger_string in doc) and
+            len(cast(e, "MacroDocumentation").params) == len(sargs(cmd)) - 1 and
+            forall(0, len(sargs(cmd)) - 1,
+                   lambda i: cast(e, "MacroDocumentation").params[i] ==
+                   re_sub(agg.settings.input.macro_parameter_name_strip_regex, sargs(cmd)[i + 1])))
+
+
+@spec
+def unquote(s: str) -> str:
+    """a quoted argument without its surrounding quotes; any other argument as written"""
+    return s[1:len(s) - 1] if s[0] == '"' else s
+
+
+@spec
+def e_variable(e: "ref", cmd: "ref:Command_invocationContext", doc: str) -> bool:
+    """variable entry (C10): type by value count, default as written"""
+    return (typeof(e, "VariableDocumentation") and
+            cast(e, "VariableDocumentation").name == sargs(cmd)[0] and
+            cast(e, "VariableDocumentation").doc == doc and
+            (len(sargs(cmd)) != 1 or (cast(e, "VariableDocumentation").type == VarType.UNSET and
+                                      cast(e, "VariableDocumentation").value is None)) and
+            (len(sargs(cmd)) != 2 or (cast(e, "VariableDocumentation").type == VarType.STRING and
+                                      cast(e, "VariableDocumentation").value == unquote(sargs(cmd)[1]))) and
+            (len(sargs(cmd)) <= 2 or (cast(e, "VariableDocumentation").type == VarType.LIST and
+                                      cast(e, "VariableDocumentation").value == join(" ", sargs(cmd)[1:]))))
+
+
+@spec
+def e_option(e: "ref", cmd: "ref:Command_invocationContext", doc: str) -> bool:
+    return (typeof(e, "OptionDocumentation") and
+            cast(e, "OptionDocumentation").name == sargs(cmd)[0] and
+            cast(e, "OptionDocumentation").doc == doc and
+            cast(e, "OptionDocumentation").type == "bool" and
+            cast(e, "OptionDocumentation").help_text == sargs(cmd)[1] and
+            cast(e, "OptionDocumentation").value == (sargs(cmd)[2] if len(sargs(cmd)) == 3 else None))
+
+
+@spec
+def e_class(e: "ref", cmd: "ref:Command_invocationContext", doc: str) -> bool:
+    return (typeof(e, "ClassDocumentation") and
+            cast(e, "ClassDocumentation").name == sargs(cmd)[0] and
+            cast(e, "ClassDocumentation").doc == doc and
+            cast(e, "ClassDocumentation").superclasses == sargs(cmd)[1:] and
+            len(cast(e, "ClassDocumentation").inner_classes) == 0 and
+            len(cast(e, "ClassDocumentation").constructors) == 0 and
+            len(cast(e, "ClassDocumentation").members) == 0 and
+            len(cast(e, "ClassDocumentation").attributes) == 0)
+
+
+@spec
+def last_kw(p: "list[str]", k: int, kw: str) -> int:
+    """largest index j < k with p[j] == kw, or -1"""
+    return -1 if k <= 0 else (k - 1 if p[k - 1] == kw else last_kw(p, k - 1, kw))
+
+
+@spec
+def name_of(p: "list[str]") -> str:
+    """the argument following the (last) NAME keyword; '' without one"""
+    return "" if last_kw(p, len(p), "NAME") < 0 else p[last_kw(p, len(p), "NAME") + 1]
+
+
+@spec
+def test_recorded(cmd: "ref:Command_invocationContext") -> bool:
+    """a test/section command is recorded unless it is malformed (fewer than two arguments, NAME last)"""
+    return len(sargs(cmd)) >= 2 and sargs(cmd)[-1] != "NAME"
+
+
+@spec
+def e_test(e: "ref", cmd: "ref:Command_invocationContext", doc: str) -> bool:
+    return (typeof(e, "TestDocumentation") and
+            cast(e, "TestDocumentation").name == name_of(sargs(cmd)) and
+            cast(e, "TestDocumentation").doc == doc and
+            cast(e, "TestDocumentation").expect_fail == (last_kw(sargs(cmd), len(sargs(cmd)), "EXPECTFAIL") >= 0) and
+            len(cast(e, "TestDocumentation").params) == 0 and
+            not cast(e, "TestDocumentation").is_macro)
+
+
+@spec
+def e_section(e: "ref", cmd: "ref:Command_invocationContext", doc: str) -> bool:
+    return (typeof(e, "SectionDocumentation") and
+            cast(e, "SectionDocumentation").name == name_of(sargs(cmd)) and
+            cast(e, "SectionDocumentation").doc == doc and
+            cast(e, "SectionDocumentation").expect_fail ==
+            (last_kw(sargs(cmd), len(sargs(cmd)), "EXPECTFAIL") >= 0) and
+            len(cast(e, "SectionDocumentation").params) == 0 and
+            not cast(e, "SectionDocumentation").is_macro)
+
+
+@spec
+def keep_pos(j: int, idx: int) -> bool:
+    """add_test signature: everything except the NAME keyword at idx and the name at idx+1"""
+    return idx < 0 or (j != idx and j != idx + 1)
+
+
+@spec
+def drop2(p: "list[str]", idx: int, k: int) -> "list[str]":
+    """the first k arguments without positions idx and idx+1, in order"""
+    return [] if k <= 0 else ((drop2(p, idx, k - 1) + [p[k - 1]]) if keep_pos(k - 1, idx) else drop2(p, idx, k - 1))
+
+
+@spec
+def e_ctest(e: "ref", cmd: "ref:Command_invocationContext", doc: str) -> bool:
+    return (typeof(e, "CTestDocumentation") and
+            cast(e, "CTestDocumentation").name == name_of(sargs(cmd)) and
+            cast(e, "CTestDocumentation").doc == doc and
+            cast(e, "CTestDocumentation").params ==
+            drop2(sargs(cmd), last_kw(sargs(cmd), len(sargs(cmd)), "NAME"), len(sargs(cmd))))
+
+
+@spec
+def member_target_ok(agg: "ref:DocumentationAggregator", ctx: "ref:Command_invocationContext") -> bool:
+    """a member/attribute declaration is recorded: enough arguments, inside a class that is shown"""
+    return (len(sargs(ctx)) >= 2 and len(agg.documented_classes_stack) > 0 and
+            agg.documented_classes_stack[-1] is not None)
+
+
+@spec
+def e_method(e: "ref", cmd: "ref:Command_invocationContext", doc: str, ctor: bool) -> bool:
+    return (typeof(e, "MethodDocumentation") and
+            cast(e, "MethodDocumentation").name == sargs(cmd)[0] and
+            cast(e, "MethodDocumentation").doc == doc and
+            cast(e, "MethodDocumentation").parent_class == sargs(cmd)[1] and
+            cast(e, "MethodDocumentation").param_types == sargs(cmd)[2:] and
+            len(cast(e, "MethodDocumentation").params) == 0 and
+            cast(e, "MethodDocumentation").is_constructor == ctor and
+            not cast(e, "MethodDocumentation").is_macro)
+
+
+@spec
+def e_attr(e: "ref", cmd: "ref:Command_invocationContext", doc: str) -> bool:
+    return (typeof(e, "AttributeDocumentation") and
+            cast(e, "AttributeDocumentation").name == sargs(cmd)[1] and
+            cast(e, "AttributeDocumentation").doc == doc and
+            cast(e, "AttributeDocumentation").parent_class == sargs(cmd)[0] and
+            cast(e, "AttributeDocumentation").default_value == (sargs(cmd)[2] if len(sargs(cmd)) > 2 else None))
+
+
+@spec
+def is_arg(c: "ref") -> bool:
+    return typeof(c, "Single_argumentContext") or typeof(c, "Compound_argumentContext")
+
+
+@spec
+def arg_children(ch: "list[ref]", k: int) -> "list[ref]":
+    """the argument nodes (single and parenthesised) among the first k children, in source order"""
+    return [] if k <= 0 else ((arg_children(ch, k - 1) + [ch[k - 1]]) if is_arg(ch[k - 1]) else arg_children(ch, k - 1))
+
+
+@spec
+def all_args(ctx: "ref:Command_invocationContext") -> "list[ref]":
+    return arg_children(list(ctx.getChildren()), len(list(ctx.getChildren())))
+
+
+@spec
+def e_generic(e: "ref", name: str, cmd: "ref:Command_invocationContext", doc: str) -> bool:
+    """generic entry: the (lower-cased) command name and every argument in source order"""
+    return (typeof(e, "GenericCommandDocumentation") and
+            cast(e, "GenericCommandDocumentation").name == name and
+            cast(e, "GenericCommandDocumentation").doc == doc and
+            len(cast(e, "GenericCommandDocumentation").params) == len(all_args(cmd)) and
+            forall(0, len(all_args(cmd)),
+                   lambda i: cast(e, "GenericCommandDocumentation").params[i] ==
+                   cast(all_args(cmd)[i], "ParserRuleContext").getText()))
+
+
+# ---------------------------------------------------------------- lemmas: the entry predicates say what C11 says
+@lemma
+def name_unique(p: "list[str]", i: int, m: int):
+    """C11 as stated: with NAME at position i and no later NAME, the name is the argument following it"""
+    props("C11")
+    requires(i >= 0 and m >= 0 and i + 1 + m <= len(p) and p[i] == "NAME" and
+             forall(i + 1, i + 1 + m, lambda j: p[j] != "NAME"))
+    ensures(last_kw(p, i + 1 + m, "NAME") == i)
+    induction(m)
+
+
+@lemma
+def kw_exists(p: "list[str]", n: int, kw: str):
+    """'shows EXPECTFAIL iff that keyword is among the arguments'"""
+    props("C11")
+    requires(n >= 0 and n <= len(p))
+    ensures((last_kw(p, n, kw) >= 0) == exists(0, n, lambda j: p[j] == kw))
+    induction(n)
+
+
+# ================================================================ the processors
 @contract("cminx.aggregator:DocumentationAggregator.process_function")
 class process_function_c:
-    props = ["C03", "C02", "C01"]
-    types = {"def_params": "list[ref:Single_argumentContext]"}
+    props = ["C03", "C02", "C01", "C08"]
     raises = {"CMakeSyntaxException": lambda ctx: len(sargs(ctx)) < 1}
 
     def ensures(self, ctx, docstring):
-        return (len(sargs(ctx)) >= 1 and
-                appended_ref(self.documented, old.self.documented, self.documented[len(old.self.documented)]) and
-                same(self.documented, old.self.documented) and
-                fresh(self.documented[len(old.self.documented)]) and
-                typeof(self.documented[len(old.self.documented)], "FunctionDocumentation"))
-
-    def ensures_entry(self, ctx, docstring):
-        return (cast(self.documented[-1], "FunctionDocumentation").name == sargs(ctx)[0] and
-                cast(self.documented[-1], "FunctionDocumentation").doc == docstring and
-                cast(self.documented[-1], "FunctionDocumentation").has_kwargs ==
-                (self.settings.input.kwargs_doc_trigger_string in docstring) and
+        return (len(sargs(ctx)) >= 1 and grew1(self.documented, old.self.documented) and
+                same(self.documented, old.self.documented) and fresh(self.documented[-1]) and
                 fresh(cast(self.documented[-1], "FunctionDocumentation").params) and
-                len(cast(self.documented[-1], "FunctionDocumentation").params) == len(sargs(ctx)) - 1 and
-                forall(0, len(sargs(ctx)) - 1,
-                       lambda i: cast(self.documented[-1], "FunctionDocumentation").params[i] ==
-                       re_sub(self.settings.input.function_parameter_name_strip_regex, sargs(ctx)[i + 1])))
+                e_function(self, self.documented[-1], ctx, docstring))
 
     def ensures_stack(self, ctx, docstring):
-        return (appended_ref(self.definition_command_stack, old.self.definition_command_stack,
-                             self.definition_command_stack[-1]) and
+        return (grew1(self.definition_command_stack, old.self.definition_command_stack) and
                 same(self.definition_command_stack, old.self.definition_command_stack) and
                 fresh(self.definition_command_stack[-1]) and
                 same(self.definition_command_stack[-1].documentation, self.documented[-1]) and
@@ -232,31 +440,17 @@ class process_function_c:
 
 @contract("cminx.aggregator:DocumentationAggregator.process_macro")
 class process_macro_c:
-    props = ["C03", "C02", "C01"]
-    types = {"def_params": "list[ref:Single_argumentContext]"}
+    props = ["C03", "C02", "C01", "C08"]
     raises = {"CMakeSyntaxException": lambda ctx: len(sargs(ctx)) < 1}
 
     def ensures(self, ctx, docstring):
-        return (len(sargs(ctx)) >= 1 and
-                appended_ref(self.documented, old.self.documented, self.documented[len(old.self.documented)]) and
-                same(self.documented, old.self.documented) and
-                fresh(self.documented[len(old.self.documented)]) and
-                typeof(self.documented[len(old.self.documented)], "MacroDocumentation"))
-
-    def ensures_entry(self, ctx, docstring):
-        return (cast(self.documented[-1], "MacroDocumentation").name == sargs(ctx)[0] and
-                cast(self.documented[-1], "MacroDocumentation").doc == docstring and
-                cast(self.documented[-1], "MacroDocumentation").has_kwargs ==
-                (self.settings.input.kwargs_doc_trigger_string in docstring) and
+        return (len(sargs(ctx)) >= 1 and grew1(self.documented, old.self.documented) and
+                same(self.documented, old.self.documented) and fresh(self.documented[-1]) and
                 fresh(cast(self.documented[-1], "MacroDocumentation").params) and
-                len(cast(self.documented[-1], "MacroDocumentation").params) == len(sargs(ctx)) - 1 and
-                forall(0, len(sargs(ctx)) - 1,
-                       lambda i: cast(self.documented[-1], "MacroDocumentation").params[i] ==
-                       re_sub(self.settings.input.macro_parameter_name_strip_regex, sargs(ctx)[i + 1])))
+                e_macro(self, self.documented[-1], ctx, docstring))
 
     def ensures_stack(self, ctx, docstring):
-        return (appended_ref(self.definition_command_stack, old.self.definition_command_stack,
-                             self.definition_command_stack[-1]) and
+        return (grew1(self.definition_command_stack, old.self.definition_command_stack) and
                 same(self.definition_command_stack, old.self.definition_command_stack) and
                 fresh(self.definition_command_stack[-1]) and
                 same(self.definition_command_stack[-1].documentation, self.documented[-1]) and
@@ -278,58 +472,20 @@ class process_cmake_parse_arguments_c:
                 "self.definition_command_stack[-1].documentation is not None else None"]
 
 
-# ---------------------------------------------------------------- tests (C11)
-@spec
-def last_kw(p: "list[str]", k: int, kw: str) -> int:
-    """largest index j < k with p[j] == kw, or -1"""
-    return -1 if k <= 0 else (k - 1 if p[k - 1] == kw else last_kw(p, k - 1, kw))
-
-
-@spec
-def name_of(p: "list[str]") -> str:
-    """the argument following the (last) NAME keyword; '' without one"""
-    return "" if last_kw(p, len(p), "NAME") < 0 else p[last_kw(p, len(p), "NAME") + 1]
-
-
-@lemma
-def name_unique(p: "list[str]", i: int, m: int):
-    """C11 as stated: with NAME exactly at position i (no later NAME), the name is the argument following it"""
-    props("C11")
-    requires(i >= 0 and m >= 0 and i + 1 + m <= len(p) and p[i] == "NAME" and
-             forall(i + 1, i + 1 + m, lambda j: p[j] != "NAME"))
-    ensures(last_kw(p, i + 1 + m, "NAME") == i)
-    induction(m)
-
-
-@lemma
-def kw_exists(p: "list[str]", n: int, kw: str):
-    """'shows EXPECTFAIL iff that keyword is among the arguments'"""
-    props("C11")
-    requires(n >= 0 and n <= len(p))
-    ensures((last_kw(p, n, kw) >= 0) == exists(0, n, lambda j: p[j] == kw))
-    induction(n)
-
-
 @contract("cminx.aggregator:DocumentationAggregator.process_ct_add_test")
 class process_ct_add_test_c:
-    props = ["C11", "C02", "C01"]
+    props = ["C11", "C02", "C01", "C08"]
 
     def ensures_none(self, ctx, docstring):
-        return (not (len(sargs(ctx)) < 2 or sargs(ctx)[-1] == "NAME") or
-                (len(self.documented) == len(old.self.documented) and
+        return (test_recorded(ctx) or
+                (unchanged(self.documented, old.self.documented) and
                  same(self.documented_awaiting_function_def, old.self.documented_awaiting_function_def)))
 
     def ensures_entry(self, ctx, docstring):
-        return (len(sargs(ctx)) < 2 or sargs(ctx)[-1] == "NAME" or
-                (appended_ref(self.documented, old.self.documented, self.documented[len(old.self.documented)]) and
-                 fresh(self.documented[-1]) and typeof(self.documented[-1], "TestDocumentation") and
-                 cast(self.documented[-1], "TestDocumentation").name == name_of(sargs(ctx)) and
-                 cast(self.documented[-1], "TestDocumentation").doc == docstring and
-                 cast(self.documented[-1], "TestDocumentation").expect_fail ==
-                 (last_kw(sargs(ctx), len(sargs(ctx)), "EXPECTFAIL") >= 0) and
+        return (not test_recorded(ctx) or
+                (grew1(self.documented, old.self.documented) and fresh(self.documented[-1]) and
                  fresh(cast(self.documented[-1], "TestDocumentation").params) and
-                 len(cast(self.documented[-1], "TestDocumentation").params) == 0 and
-                 not cast(self.documented[-1], "TestDocumentation").is_macro and
+                 e_test(self.documented[-1], ctx, docstring) and
                  same(self.documented_awaiting_function_def, self.documented[-1])))
 
     def ensures_same_list(self, ctx, docstring):
@@ -344,24 +500,18 @@ class process_ct_add_test_c:
 
 @contract("cminx.aggregator:DocumentationAggregator.process_ct_add_section")
 class process_ct_add_section_c:
-    props = ["C11", "C02", "C01"]
+    props = ["C11", "C02", "C01", "C08"]
 
     def ensures_none(self, ctx, docstring):
-        return (not (len(sargs(ctx)) < 2 or sargs(ctx)[-1] == "NAME") or
-                (len(self.documented) == len(old.self.documented) and
+        return (test_recorded(ctx) or
+                (unchanged(self.documented, old.self.documented) and
                  same(self.documented_awaiting_function_def, old.self.documented_awaiting_function_def)))
 
     def ensures_entry(self, ctx, docstring):
-        return (len(sargs(ctx)) < 2 or sargs(ctx)[-1] == "NAME" or
-                (appended_ref(self.documented, old.self.documented, self.documented[len(old.self.documented)]) and
-                 fresh(self.documented[-1]) and typeof(self.documented[-1], "SectionDocumentation") and
-                 cast(self.documented[-1], "SectionDocumentation").name == name_of(sargs(ctx)) and
-                 cast(self.documented[-1], "SectionDocumentation").doc == docstring and
-                 cast(self.documented[-1], "SectionDocumentation").expect_fail ==
-                 (last_kw(sargs(ctx), len(sargs(ctx)), "EXPECTFAIL") >= 0) and
+        return (not test_recorded(ctx) or
+                (grew1(self.documented, old.self.documented) and fresh(self.documented[-1]) and
                  fresh(cast(self.documented[-1], "SectionDocumentation").params) and
-                 len(cast(self.documented[-1], "SectionDocumentation").params) == 0 and
-                 not cast(self.documented[-1], "SectionDocumentation").is_macro and
+                 e_section(self.documented[-1], ctx, docstring) and
                  same(self.documented_awaiting_function_def, self.documented[-1])))
 
     def ensures_same_list(self, ctx, docstring):
@@ -374,36 +524,19 @@ class process_ct_add_section_c:
                      modifies=[])}
 
 
-@spec
-def keep_pos(j: int, idx: int) -> bool:
-    """add_test signature: everything except the NAME keyword at idx and the name at idx+1"""
-    return idx < 0 or (j != idx and j != idx + 1)
-
-
-@spec
-def drop2(p: "list[str]", idx: int, k: int) -> "list[str]":
-    """the first k arguments without positions idx and idx+1, in order"""
-    return [] if k <= 0 else ((drop2(p, idx, k - 1) + [p[k - 1]]) if keep_pos(k - 1, idx) else drop2(p, idx, k - 1))
-
-
 @contract("cminx.aggregator:DocumentationAggregator.process_add_test")
 class process_add_test_c:
-    props = ["C11", "C02", "C01"]
+    props = ["C11", "C02", "C01", "C08"]
     types = {"signature": "list[str]"}
 
     def ensures_none(self, ctx, docstring):
-        return (not (len(sargs(ctx)) < 2 or sargs(ctx)[-1] == "NAME") or
-                len(self.documented) == len(old.self.documented))
+        return test_recorded(ctx) or unchanged(self.documented, old.self.documented)
 
     def ensures_entry(self, ctx, docstring):
-        return (len(sargs(ctx)) < 2 or sargs(ctx)[-1] == "NAME" or
-                (appended_ref(self.documented, old.self.documented, self.documented[len(old.self.documented)]) and
-                 fresh(self.documented[-1]) and typeof(self.documented[-1], "CTestDocumentation") and
-                 cast(self.documented[-1], "CTestDocumentation").name == name_of(sargs(ctx)) and
-                 cast(self.documented[-1], "CTestDocumentation").doc == docstring and
+        return (not test_recorded(ctx) or
+                (grew1(self.documented, old.self.documented) and fresh(self.documented[-1]) and
                  fresh(cast(self.documented[-1], "CTestDocumentation").params) and
-                 cast(self.documented[-1], "CTestDocumentation").params ==
-                 drop2(sargs(ctx), last_kw(sargs(ctx), len(sargs(ctx)), "NAME"), len(sargs(ctx)))))
+                 e_ctest(self.documented[-1], ctx, docstring)))
 
     def ensures_same_list(self, ctx, docstring):
         return same(self.documented, old.self.documented)
@@ -417,13 +550,6 @@ class process_add_test_c:
                      modifies=["items(_out)"], elem="str")}
 
 
-# ---------------------------------------------------------------- variables and options (C10)
-@spec
-def unquote(s: str) -> str:
-    """a quoted argument without its surrounding quotes; any other argument as written"""
-    return s[1:len(s) - 1] if s[0] == '"' else s
-
-
 @contract("cminx.aggregator:DocumentationAggregator.process_set")
 class process_set_c:
     props = ["C10", "C02", "C01"]
@@ -433,100 +559,179 @@ class process_set_c:
         return wf_cmd(ctx)
 
     def ensures_none(self, ctx, docstring):
-        return len(sargs(ctx)) >= 1 or len(self.documented) == len(old.self.documented)
+        return len(sargs(ctx)) >= 1 or unchanged(self.documented, old.self.documented)
 
     def ensures_entry(self, ctx, docstring):
         return (len(sargs(ctx)) < 1 or
-                (appended_ref(self.documented, old.self.documented, self.documented[len(old.self.documented)]) and
-                 fresh(self.documented[-1]) and typeof(self.documented[-1], "VariableDocumentation") and
-                 cast(self.documented[-1], "VariableDocumentation").name == sargs(ctx)[0] and
-                 cast(self.documented[-1], "VariableDocumentation").doc == docstring))
-
-    def ensures_unset(self, ctx, docstring):
-        return (len(sargs(ctx)) != 1 or
-                (cast(self.documented[-1], "VariableDocumentation").type == VarType.UNSET and
-                 cast(self.documented[-1], "VariableDocumentation").value is None))
-
-    def ensures_string(self, ctx, docstring):
-        return (len(sargs(ctx)) != 2 or
-                (cast(self.documented[-1], "VariableDocumentation").type == VarType.STRING and
-                 cast(self.documented[-1], "VariableDocumentation").value == unquote(sargs(ctx)[1])))
-
-    def ensures_list(self, ctx, docstring):
-        return (len(sargs(ctx)) <= 2 or
-                (cast(self.documented[-1], "VariableDocumentation").type == VarType.LIST and
-                 cast(self.documented[-1], "VariableDocumentation").value == join(" ", sargs(ctx)[1:])))
+                (grew1(self.documented, old.self.documented) and fresh(self.documented[-1]) and
+                 e_variable(self.documented[-1], ctx, docstring)))
 
     def ensures_same_list(self, ctx, docstring):
         return same(self.documented, old.self.documented)
     modifies = ["items(self.documented)"]
+
+
+@spec
+def option_recorded(cmd: "ref:Command_invocationContext") -> bool:
+    return len(sargs(cmd)) == 2 or len(sargs(cmd)) == 3
 
 
 @contract("cminx.aggregator:DocumentationAggregator.process_option")
 class process_option_c:
-    props = ["C10", "C02", "C01"]
+    props = ["C10", "C02", "C01", "C08"]
 
     def ensures_none(self, ctx, docstring):
-        return (len(sargs(ctx)) == 2 or len(sargs(ctx)) == 3 or len(self.documented) == len(old.self.documented))
+        return option_recorded(ctx) or unchanged(self.documented, old.self.documented)
 
     def ensures_entry(self, ctx, docstring):
-        return (not (len(sargs(ctx)) == 2 or len(sargs(ctx)) == 3) or
-                (appended_ref(self.documented, old.self.documented, self.documented[len(old.self.documented)]) and
-                 fresh(self.documented[-1]) and typeof(self.documented[-1], "OptionDocumentation") and
-                 cast(self.documented[-1], "OptionDocumentation").name == sargs(ctx)[0] and
-                 cast(self.documented[-1], "OptionDocumentation").doc == docstring and
-                 cast(self.documented[-1], "OptionDocumentation").type == "bool" and
-                 cast(self.documented[-1], "OptionDocumentation").help_text == sargs(ctx)[1] and
-                 cast(self.documented[-1], "OptionDocumentation").value ==
-                 (sargs(ctx)[2] if len(sargs(ctx)) == 3 else None)))
+        return (not option_recorded(ctx) or
+                (grew1(self.documented, old.self.documented) and fresh(self.documented[-1]) and
+                 e_option(self.documented[-1], ctx, docstring)))
 
     def ensures_same_list(self, ctx, docstring):
         return same(self.documented, old.self.documented)
     modifies = ["items(self.documented)"]
 
 
-# ---------------------------------------------------------------- classes (C09, C08)
 @contract("cminx.aggregator:DocumentationAggregator.process_cpp_class")
 class process_cpp_class_c:
     props = ["C09", "C08", "C02", "C01"]
 
     def ensures_none(self, ctx, docstring):
         return (len(sargs(ctx)) >= 1 or
-                (len(self.documented) == len(old.self.documented) and
-                 len(self.documented_classes_stack) == len(old.self.documented_classes_stack)))
+                (unchanged(self.documented, old.self.documented) and
+                 unchanged(self.documented_classes_stack, old.self.documented_classes_stack)))
 
     def ensures_entry(self, ctx, docstring):
         return (len(sargs(ctx)) < 1 or
-                (appended_ref(self.documented, old.self.documented, self.documented[len(old.self.documented)]) and
-                 fresh(self.documented[-1]) and typeof(self.documented[-1], "ClassDocumentation") and
-                 cast(self.documented[-1], "ClassDocumentation").name == sargs(ctx)[0] and
-                 cast(self.documented[-1], "ClassDocumentation").doc == docstring and
+                (grew1(self.documented, old.self.documented) and fresh(self.documented[-1]) and
                  fresh(cast(self.documented[-1], "ClassDocumentation").superclasses) and
-                 cast(self.documented[-1], "ClassDocumentation").superclasses == sargs(ctx)[1:] and
                  fresh(cast(self.documented[-1], "ClassDocumentation").inner_classes) and
-                 len(cast(self.documented[-1], "ClassDocumentation").inner_classes) == 0 and
                  fresh(cast(self.documented[-1], "ClassDocumentation").constructors) and
-                 len(cast(self.documented[-1], "ClassDocumentation").constructors) == 0 and
                  fresh(cast(self.documented[-1], "ClassDocumentation").members) and
-                 len(cast(self.documented[-1], "ClassDocumentation").members) == 0 and
                  fresh(cast(self.documented[-1], "ClassDocumentation").attributes) and
-                 len(cast(self.documented[-1], "ClassDocumentation").attributes) == 0))
+                 e_class(self.documented[-1], ctx, docstring)))
 
     def ensures_stack(self, ctx, docstring):
         return (len(sargs(ctx)) < 1 or
-                (appended_ref(self.documented_classes_stack, old.self.documented_classes_stack,
-                              self.documented[-1]) and
+                (grew1(self.documented_classes_stack, old.self.documented_classes_stack) and
+                 same(self.documented_classes_stack[-1], self.documented[-1]) and
                  same(self.documented_classes_stack, old.self.documented_classes_stack)))
 
     def ensures_inner(self, ctx, docstring):
-        """registered by name in the inner-class list of the innermost enclosing (shown) class, and of no other"""
+        """registered in the inner-class list of the innermost enclosing (shown) class, and of no other"""
         return (len(sargs(ctx)) < 1 or len(old.self.documented_classes_stack) == 0 or
                 old.self.documented_classes_stack[-1] is None or
-                appended_ref(self.documented_classes_stack[-2].inner_classes,
-                             old.self.documented_classes_stack[-1].inner_classes, self.documented[-1]))
+                (grew1(self.documented_classes_stack[-2].inner_classes,
+                       old.self.documented_classes_stack[-1].inner_classes) and
+                 same(self.documented_classes_stack[-2].inner_classes[-1], self.documented[-1])))
 
     def ensures_same_list(self, ctx, docstring):
         return same(self.documented, old.self.documented)
     modifies = ["items(self.documented)", "items(self.documented_classes_stack)",
                 "items(self.documented_classes_stack[-1].inner_classes) if len(sargs(ctx)) >= 1 and "
                 "len(self.documented_classes_stack) > 0 and self.documented_classes_stack[-1] is not None else None"]
+
+
+@contract("cminx.aggregator:DocumentationAggregator.process_cpp_member")
+class process_cpp_member_c:
+    """attached to the class on top of the class stack and to no other (C09)"""
+    props = ["C09", "C08", "C02", "C01"]
+    types = {"params": "list[str]", "param_types": "list[str]"}
+
+    def ensures_none(self, ctx, docstring, is_constructor):
+        return (member_target_ok(old.self, ctx) or
+                same(self.documented_awaiting_function_def, old.self.documented_awaiting_function_def))
+
+    def ensures_member(self, ctx, docstring, is_constructor):
+        return (not member_target_ok(old.self, ctx) or is_constructor or
+                (grew1(self.documented_classes_stack[-1].members, old.self.documented_classes_stack[-1].members) and
+                 same(self.documented_classes_stack[-1].members[-1], self.documented_awaiting_function_def) and
+                 len(self.documented_classes_stack[-1].constructors) ==
+                 len(old.self.documented_classes_stack[-1].constructors)))
+
+    def ensures_ctor(self, ctx, docstring, is_constructor):
+        return (not member_target_ok(old.self, ctx) or not is_constructor or
+                (grew1(self.documented_classes_stack[-1].constructors,
+                       old.self.documented_classes_stack[-1].constructors) and
+                 same(self.documented_classes_stack[-1].constructors[-1], self.documented_awaiting_function_def) and
+                 len(self.documented_classes_stack[-1].members) ==
+                 len(old.self.documented_classes_stack[-1].members)))
+
+    def ensures_entry(self, ctx, docstring, is_constructor):
+        return (not member_target_ok(old.self, ctx) or
+                (fresh(self.documented_awaiting_function_def) and
+                 fresh(cast(self.documented_awaiting_function_def, "MethodDocumentation").params) and
+                 e_method(self.documented_awaiting_function_def, ctx, docstring, is_constructor)))
+    modifies = ["self.documented_awaiting_function_def if member_target_ok(self, ctx) else None",
+                "items(self.documented_classes_stack[-1].members) if member_target_ok(self, ctx) and "
+                "not is_constructor else None",
+                "items(self.documented_classes_stack[-1].constructors) if member_target_ok(self, ctx) and "
+                "is_constructor else None"]
+
+
+@contract("cminx.aggregator:DocumentationAggregator.process_cpp_constructor")
+class process_cpp_constructor_c:
+    props = ["C09", "C08", "C02", "C01"]
+
+    def ensures_none(self, ctx, docstring):
+        return (member_target_ok(old.self, ctx) or
+                same(self.documented_awaiting_function_def, old.self.documented_awaiting_function_def))
+
+    def ensures_ctor(self, ctx, docstring):
+        return (not member_target_ok(old.self, ctx) or
+                (grew1(self.documented_classes_stack[-1].constructors,
+                       old.self.documented_classes_stack[-1].constructors) and
+                 same(self.documented_classes_stack[-1].constructors[-1], self.documented_awaiting_function_def) and
+                 len(self.documented_classes_stack[-1].members) ==
+                 len(old.self.documented_classes_stack[-1].members) and
+                 fresh(self.documented_awaiting_function_def) and
+                 fresh(cast(self.documented_awaiting_function_def, "MethodDocumentation").params) and
+                 e_method(self.documented_awaiting_function_def, ctx, docstring, True)))
+    modifies = ["self.documented_awaiting_function_def if member_target_ok(self, ctx) else None",
+                "items(self.documented_classes_stack[-1].constructors) if member_target_ok(self, ctx) else None"]
+
+
+@contract("cminx.aggregator:DocumentationAggregator.process_cpp_attr")
+class process_cpp_attr_c:
+    props = ["C09", "C08", "C02", "C01"]
+    types = {"params": "list[str]"}
+
+    def ensures_attr(self, ctx, docstring):
+        return (not member_target_ok(old.self, ctx) or
+                (grew1(self.documented_classes_stack[-1].attributes,
+                       old.self.documented_classes_stack[-1].attributes) and
+                 fresh(self.documented_classes_stack[-1].attributes[-1]) and
+                 e_attr(self.documented_classes_stack[-1].attributes[-1], ctx, docstring)))
+    modifies = ["items(self.documented_classes_stack[-1].attributes) if member_target_ok(self, ctx) else None"]
+
+
+@contract("cminx.aggregator:DocumentationAggregator.process_generic_command")
+class process_generic_command_c:
+    """name and every argument (single or parenthesised), as the tree gives them, in source order"""
+    props = ["C02", "C01"]
+
+    def ensures(self, command_name, ctx, docstring):
+        return (grew1(self.documented, old.self.documented) and same(self.documented, old.self.documented) and
+                fresh(self.documented[-1]) and
+                fresh(cast(self.documented[-1], "GenericCommandDocumentation").params) and
+                e_generic(self.documented[-1], command_name, ctx, docstring))
+    modifies = ["items(self.documented)"]
+    loops = {0: Loop(inv=lambda ctx, _out, _k: _out == arg_children(list(ctx.getChildren()), _k),
+                     modifies=["items(_out)"], elem="ref:ParserRuleContext")}
+
+
+# ================================================================ the listener callbacks
+@contract("cminx.aggregator:DocumentationAggregator.__init__")
+class aggregator_init_c:
+    props = ["C02", "C03", "C08", "C09", "C17"]
+    types = {"settings": "ref:Settings"}
+
+    def ensures(self, settings):
+        return (same(self.settings, settings) and
+                fresh(self.documented) and len(self.documented) == 0 and
+                fresh(self.documented_classes_stack) and len(self.documented_classes_stack) == 0 and
+                self.documented_awaiting_function_def is None and
+                fresh(self.definition_command_stack) and len(self.definition_command_stack) == 0 and
+                fresh(self.consumed) and len(self.consumed) == 0)
+    modifies = ["fields(self)"]
